@@ -140,14 +140,21 @@ def qmsg(sql):
 
 
 # ------------------------------------------------------------------ client generator
-def gen_client(rng, cfg, cname, shadow_pw):
-    """-> dict(step=connect step fields, kind=..., intent=...)  shadow_pw: user -> server-side password"""
+def gen_client(rng, cfg, cname, shadow_pw, force=None, pair=None):
+    """-> dict(step=connect step fields, kind=..., intent=...)  shadow_pw: user -> server-side password
+    force: a kind or (kind, sub-kind) to generate instead of a random one; pair: the (database, user) to aim at"""
     marker = "c09:%s;" % cname
     app = (b"application_name", marker.encode())
     pairs = [(p["name"], u["name"]) for p in cfg["pools"] for u in p["users"]]
     kind = rng.choices(["good", "wrongpw", "unknown", "admin", "edit", "replay", "othermsg", "badstartup", "weirdstartup", "serverpw"],
                        [22, 12, 8, 12, 16, 5, 8, 8, 6, 6])[0]
-    db, user = rng.choice(pairs) if pairs else ("db1", "alice")
+    sub = None
+    if force is not None:
+        kind, sub = (force, None) if isinstance(force, str) else force
+
+    def pick(options):
+        return sub if sub in options else rng.choice(options)
+    db, user = pair if pair else (rng.choice(pairs) if pairs else ("db1", "alice"))
     sv = served(cfg, db, user)
     pw = (sv[1]["pw"] if sv and sv[1]["pw"] is not None else shadow_pw.get(user, "nopw")) if sv else "x"
     st = {"op": "connect", "c": cname, "params": {}, "timeout_ms": 250}
@@ -179,7 +186,7 @@ def gen_client(rng, cfg, cname, shadow_pw):
             sparams = [(b"user", b""), (b"database", db.encode()), app]
     elif kind == "admin":
         db = rng.choice(ADMIN_DBS)
-        c = rng.random()
+        c = {"good": 0.1, "anyuser": 0.55, "user_creds": 0.7, "wrong": 0.9}.get(sub, rng.random())
         user = cfg["admin_user"] if c < 0.5 else rng.choice(USERS)
         if c < 0.45:
             auth_user, pw = cfg["admin_user"], cfg["admin_pw"]
@@ -190,11 +197,11 @@ def gen_client(rng, cfg, cname, shadow_pw):
         else:
             auth_user, pw = cfg["admin_user"], rng.choice(PWS)
         sparams = [(b"user", user.encode()), (b"database", db.encode()), app]
-        if rng.random() < 0.15:                   # database omitted, user = pgcat: pool_name defaults to the user
+        if sub is None and rng.random() < 0.15:   # database omitted, user = pgcat: pool_name defaults to the user
             user = "pgcat"
             sparams = [(b"user", b"pgcat"), app]
     elif kind == "edit":
-        e = rng.choice(["trunc", "trunc0", "append", "xor", "len_small", "len_neg", "len_min", "len_plus", "len_minus", "len_huge", "tag", "partial", "after", "silent", "halflen"])
+        e = pick(["trunc", "trunc0", "append", "xor", "len_small", "len_neg", "len_min", "len_plus", "len_minus", "len_huge", "tag", "partial", "after", "silent", "halflen"])
         desc = "edit:" + e
         if e == "trunc":
             st["resp_edit"] = {"trunc": rng.randint(1, 35)}
@@ -231,7 +238,7 @@ def gen_client(rng, cfg, cname, shadow_pw):
     elif kind == "replay":
         st["salt_override"] = rng.choice(["00000000", "01020304", "ffffffff", "%08x" % rng.getrandbits(32)])
     elif kind == "othermsg":
-        m = rng.choice(["Q", "X", "P", "clear", "empty", "garbage", "S", "md5_nonul", "startup_again"])
+        m = pick(["Q", "X", "P", "clear", "empty", "garbage", "S", "md5_nonul", "startup_again"])
         desc = "othermsg:" + m
         tagged = "SELECT 2 /*%s*/" % marker
         if m == "Q":
@@ -253,7 +260,7 @@ def gen_client(rng, cfg, cname, shadow_pw):
         elif m == "startup_again":
             st["password_raw"] = {"raw": startup_pkt(sparams).hex()}
     elif kind == "badstartup":
-        b = rng.choice(["len0", "len1_3", "len4", "len5_7", "neg", "min", "huge", "code", "cancel", "short", "ssl", "ssl_then_bad", "ssl_twice"])
+        b = pick(["len0", "len1_3", "len4", "len5_7", "neg", "min", "huge", "code", "cancel", "short", "ssl", "ssl_admin", "ssl_then_bad", "ssl_twice"])
         desc = "badstartup:" + b
         good = startup_pkt(sparams)
         if b == "len0":
@@ -281,6 +288,10 @@ def gen_client(rng, cfg, cname, shadow_pw):
         elif b == "ssl":
             raw = struct.pack(">ii", 8, 80877103) + good
             st["ssl_byte"] = True
+        elif b == "ssl_admin":                    # SSLRequest, then the admin database with the admin credentials
+            user, auth_user, pw = cfg["admin_user"], cfg["admin_user"], cfg["admin_pw"]
+            raw = struct.pack(">ii", 8, 80877103) + startup_pkt([(b"user", user.encode()), (b"database", rng.choice(ADMIN_DBS).encode()), app])
+            st["ssl_byte"] = True
         elif b == "ssl_then_bad":
             raw = struct.pack(">ii", 8, 80877103) + rng.choice([struct.pack(">ii", 8, 80877103), struct.pack(">iiii", 16, 80877102, 1, 2),
                                                                  struct.pack(">i", 2), startup_pkt(sparams, code=7)])
@@ -289,7 +300,7 @@ def gen_client(rng, cfg, cname, shadow_pw):
             raw = struct.pack(">ii", 8, 80877103) + struct.pack(">i", 0)
             st["ssl_byte"] = True
     elif kind == "weirdstartup":
-        w = rng.choice(["nouser", "odd", "unterminated", "nofinalnul", "dup", "dbdefault", "empty", "empty2", "shift", "latin1", "emptyval", "order",
+        w = pick(["nouser", "odd", "unterminated", "nofinalnul", "dup", "dbdefault", "empty", "empty2", "shift", "latin1", "emptyval", "order",
                         "latin1name", "latin1name", "badutf8name", "emptyname_mid", "name_no_value", "name_unterminated", "emptydb", "emptyuser"])
         desc = "weirdstartup:" + w
         ub, dbb = sparams[0][1], sparams[1][1]
@@ -367,9 +378,14 @@ SSLREQ = struct.pack(">ii", 8, 80877103)
 
 def build_scenario(rng, idx, quick, tls=False):
     flavour = rng.choices(["plain", "shutdown", "aqchange", "down"], [55, 15, 20, 10])[0]
-    if tls:                       # the tlsauth driver has no control / backend steps
-        flavour = rng.choice(["plain", "plain", "down"])
-    cfg = gen_config(rng, want_aq=True if flavour == "aqchange" else None, want_down=(flavour == "down"))
+    if idx % 4 == 0:              # admin_only (shutdown in progress) is a dimension of every path: a fixed share of the scenarios
+        flavour = "shutdown"
+    cfg = gen_config(rng, want_aq=True if flavour in ("aqchange", "shutdown") else None, want_down=(flavour == "down"))
+    if flavour == "shutdown":     # every kind of login must meet admin_only: a cleartext md5 user, a trust user, an auth_query-only user
+        p0 = cfg["pools"][0]
+        free = [u for u in ("alice", "bob", "carol", "dave", "eve") if u not in {x["name"] for x in p0["users"]}]
+        p0["aq"] = True
+        p0["users"] += [{"name": free[0], "pw": "clearpw", "auth": "md5"}, {"name": free[1], "pw": "tpw", "auth": "trust"}, {"name": free[2], "pw": None, "auth": "md5"}]
     allusers = sorted({u["name"] for p in cfg["pools"] for u in p["users"]})
     # server-side passwords: mostly the configured cleartext one, sometimes another, sometimes no row / a foreign format
     shadow_pw, shadow = {}, {}
@@ -389,9 +405,9 @@ def build_scenario(rng, idx, quick, tls=False):
     finished = [0]
     state = {"sd": False, "shadow": dict(shadow), "shadow_pw": dict(shadow_pw)}
 
-    def add_client(i, forced=None):
+    def add_client(i, force=None, pair=None):
         cname = "s%dc%d" % (idx, i)
-        cl = forced or gen_client(rng, cfg, cname, state["shadow_pw"])
+        cl = gen_client(rng, cfg, cname, state["shadow_pw"], force=force, pair=pair)
         cl["name"] = cname
         cl["tls_ok"] = True
         if tls:
@@ -441,6 +457,17 @@ def build_scenario(rng, idx, quick, tls=False):
             finished[0] += 1
             steps.append({"op": "wait_tasks", "n": finished[0], "label": "canary", "timeout_ms": 4000})
             state["sd"] = True
+            # admin_only x every handshake kind: each served (database, user) with its right password (md5 / trust /
+            # auth_query-only users alike), the admin database with right and wrong credentials, the plain path after a
+            # declined SSLRequest (when TLS is not configured), an unknown user; then the random clients continue
+            k = 0
+            for pp in cfg["pools"]:
+                for uu in {u["name"] for u in pp["users"]}:
+                    add_client(100 + k, force=rng.choice(["good", "good", "serverpw"]), pair=(pp["name"], uu))
+                    k += 1
+            for f in [("admin", "good"), ("admin", "wrong"), ("admin", "anyuser"), "unknown", ("badstartup", "ssl"), ("badstartup", "ssl_admin"), ("weirdstartup", "dbdefault"), ("edit", "after"), ("othermsg", "Q")]:
+                add_client(100 + k, force=f)
+                k += 1
         if flavour == "aqchange" and i in (n // 3, 2 * n // 3):
             # passwords change on the server
             for un in allusers:
@@ -748,6 +775,19 @@ def check_scenario(run, sc, res, mres, stats):
                 probs.append(("diff", "client %s (%s): model %s %s fetches=%d validates=%d, implementation %s %s aq_conns=%d opens=%d" % (
                     m["name"], m["kind"], mc, mf, n_aq, n_val, ic, itf, o["aq_opens"], o["opens"]), rp))
         stats["traces"] += 1
+        # the admin_only dimension: which path / which kind of login / shutting down or not -> what happened
+        idn = oracle_ident(m["raw"])
+        if idn and not m.get("special"):
+            path = ("tls" if m.get("tls_ok", True) else "tls_handshake_failed") if sc.get("tls") else ("ssl_declined_then_plain" if m["raw"].startswith(SSLREQ) else "plain")
+            svd = served(cfg, idn[1], idn[0])
+            target = "admin_db" if idn[1] in ADMIN_DBS else ("unknown" if not svd else "trust" if svd[1]["auth"] == "trust" else
+                                                           "auth_query_only" if svd[1]["pw"] is None else "md5_cleartext")
+            cell = stats.setdefault("gate", {}).setdefault("%s|admin_only=%s|%s" % (path, "true" if m["sd"] else "false", target), {})
+            cell[ic] = cell.get(ic, 0) + 1
+            if m["sd"] and target != "admin_db" and (o["auth_ok"] or any(x.startswith("md5:") for x in itf)):
+                probs.append(("monitor", "client %s (%s, %s path) was %s while pgcat is shutting down (admin_only): %s" % (
+                    m["name"], target, path, "admitted" if o["auth_ok"] else "sent an MD5 challenge", itf),
+                    {"monitor": "admin_only refuses every non-admin startup before any challenge, on every path", "scenario": sc["scn"], "client": m["name"], "path": path}))
         if o["salt"]:
             stats.setdefault("salts", []).append(o["salt"])
         if o["auth_ok"]:
@@ -1075,7 +1115,7 @@ def check(run):
     have_certs = all(os.path.exists(os.path.join(vlib.REPO, ".circleci", f)) for f in ("server.cert", "server.key"))
     tls_before = stats["traces"]
     if have_certs and not allprobs:
-        ntls = 8 if quick else 150
+        ntls = 12 if quick else 150
         done_t = 0
         while done_t < ntls and not allprobs:
             scs = [build_scenario(rng, 100000 + done_t + i, quick, tls=True) for i in range(min(batch, ntls - done_t))]
@@ -1094,6 +1134,10 @@ def check(run):
     run.cov["transitions_covered"] = len([c for c in ALL_CLASSES if stats["classes"].get(c)])
     run.cov["outcome_histogram"] = dict(sorted(stats["classes"].items()))
     run.cov["input_distribution"] = dict(sorted(stats["kinds"].items()))
+    run.cov["admin_only_matrix"] = {k: stats.get("gate", {})[k] for k in sorted(stats.get("gate", {}))}
+    want = ["%s|admin_only=true|%s" % (pth, t) for pth in ("plain", "ssl_declined_then_plain", "tls") for t in ("md5_cleartext", "trust", "auth_query_only", "admin_db", "unknown")
+            if not (pth == "ssl_declined_then_plain" and t in ("trust", "auth_query_only", "unknown"))]
+    run.cov["admin_only_cells_missing"] = [k for k in want if k not in stats.get("gate", {})]
     run.cov["md5_vectors_vs_hashlib"] = stats["md5_vectors"]
     run.cov["valid_credentials_admitted_checks"] = stats["m2"]
     run.cov["backend_events_attributed"] = stats["backend_events"]
